@@ -424,11 +424,14 @@ func (rg *c08rig) transparency(c c08case, body []byte, sh *core.Shard) (sig, wha
 	hs := append([][2]string{{"X-Case", c.ID}}, c.Headers...)
 	raw := BuildRequest(c.Method, c.Target, c.Host, hs, body, c.Chunked)
 	t0 := time.Now()
-	resp, err := RawRequest(rg.entry(c.Via).ProxyAddr(), raw, c.Method, 60*time.Second)
+	// transparency is not a timing matter (the failure matrix decides "never a
+	// hang" with its own short timeouts): a multi-megabyte exchange through two
+	// race-built proxies on a starved machine has taken more than 15 s
+	resp, err := RawRequest(rg.entry(c.Via).ProxyAddr(), raw, c.Method, 5*time.Minute)
 	seen := rg.up.take(c.ID)
 	if err != nil {
-		if time.Since(t0) >= 59*time.Second {
-			return "hang", fmt.Sprintf("request %s got no complete response within 60 s: %v", c.ID, err), false
+		if time.Since(t0) >= 299*time.Second {
+			return "hang", fmt.Sprintf("request %s got no complete response within 5 min: %v", c.ID, err), false
 		}
 		partial := 0
 		if resp != nil {
@@ -502,7 +505,7 @@ func (rg *c08rig) transparency(c c08case, body []byte, sh *core.Shard) (sig, wha
 	// ---- response side
 	sc := c.Script
 	if resp.Status == 504 && sc.Status != 504 && time.Since(t0) >= rg.timeout {
-		// the gateway's own timeout expired although this rig's is 15 s: the machine
+		// the gateway's own timeout expired although this rig's is 5 min: the machine
 		// is overloaded; that is the timeout working, not a transparency matter.
 		// Retried; a gateway that keeps answering 504 is reported by the caller.
 		sh.Count("gateway_timeouts_under_load", 1)
@@ -782,7 +785,7 @@ func runC08(sh *core.Shard, a props.Args) {
 		sh.Exhaustive["asymmetric_timeouts"] = true
 	}
 	// transparency runs with a proxy timeout that a loaded machine does not hit
-	rg, err := newC08Rig(15 * time.Second)
+	rg, err := newC08Rig(5 * time.Minute)
 	if err != nil {
 		sh.Inconcl("C08 rig: %v", err)
 		return
@@ -864,7 +867,7 @@ func runC08(sh *core.Shard, a props.Args) {
 func init() {
 	props.Register(&props.Prop{
 		ID: "C08", Level: "exploration", Race: true, Parallel: 8, BoundedTime: true,
-		Rule: "a 2-node real cluster (proxy timeout 400 ms) with a raw recording responder on a piko listener; a raw-socket HTTP/1.1 client sends seeded requests through the local node and through the other node (forwarded): 9 methods incl. HEAD/OPTIONS/PATCH and an extension method, targets with %2F %20 %25 %3F UTF-8 // .. ;params and odd queries, 0-30 headers with duplicates, mixed case, empty and 3 KB values, Cookie lists, optional User-Agent / Accept-Encoding / X-Forwarded-For, Host label or x-piko-endpoint addressing, bodies 0 B-300 KB (thorough 2 MiB) fixed-length or chunked; the upstream answers from a seeded script (22 statuses, duplicate headers, Set-Cookie lists, empty values, identity/chunked/empty bodies, gzip when accepted). Oracle: the upstream saw the same method, raw request target, Host, body and every end-to-end header (per name, values in order) and nothing else except X-Forwarded-For (appended), X-Piko-Forward, Accept-Encoding: gzip when the client sent none, and framing headers; the client received the upstream's status, end-to-end headers (nothing fabricated except Date and framing) and body (transparently gunzipped only when the client had not asked for gzip). Failure matrix, enumerated completely on both paths: no endpoint derivable (5 Host shapes) => 400; nobody serves it, upstream closes at once / mid-headers, remote proxy port closed, upstream announced go-away => 502; never answers / answers after the timeout => 504 no earlier than the timeout and no later than timeout+5 s; slower but inside the timeout => 200; Upgrade: websocket / WebSocket / WEBSOCKET idle for 4x the timeout stays open. Asymmetric rig: the entry node (timeout 400 ms) forwards to a node with timeout 60 s whose upstream hangs or answers after 3.2 s => 504 from the entry node within its own timeout+5 s. Every request has a 20 s watchdog whose expiry is a violation (the property says 'never a hang'). Distinct = hash of (method, path, via, header count, sizes, framing, status).",
+		Rule: "a 2-node real cluster (proxy timeout 400 ms) with a raw recording responder on a piko listener; a raw-socket HTTP/1.1 client sends seeded requests through the local node and through the other node (forwarded): 9 methods incl. HEAD/OPTIONS/PATCH and an extension method, targets with %2F %20 %25 %3F UTF-8 // .. ;params and odd queries, 0-30 headers with duplicates, mixed case, empty and 3 KB values, Cookie lists, optional User-Agent / Accept-Encoding / X-Forwarded-For, Host label or x-piko-endpoint addressing, bodies 0 B-300 KB (thorough 2 MiB) fixed-length or chunked; the upstream answers from a seeded script (22 statuses, duplicate headers, Set-Cookie lists, empty values, identity/chunked/empty bodies, gzip when accepted). Oracle: the upstream saw the same method, raw request target, Host, body and every end-to-end header (per name, values in order) and nothing else except X-Forwarded-For (appended), X-Piko-Forward, Accept-Encoding: gzip when the client sent none, and framing headers; the client received the upstream's status, end-to-end headers (nothing fabricated except Date and framing) and body (transparently gunzipped only when the client had not asked for gzip). Failure matrix, enumerated completely on both paths: no endpoint derivable (5 Host shapes) => 400; nobody serves it, upstream closes at once / mid-headers, remote proxy port closed, upstream announced go-away => 502; never answers / answers after the timeout => 504 no earlier than the timeout and no later than timeout+5 s; slower but inside the timeout => 200; Upgrade: websocket / WebSocket / WEBSOCKET idle for 4x the timeout stays open. Asymmetric rig: the entry node (timeout 400 ms) forwards to a node with timeout 60 s whose upstream hangs or answers after 3.2 s => 504 from the entry node within its own timeout+5 s. Fault-matrix requests have a 20-30 s watchdog whose expiry is a violation (the property says 'never a hang'); transparency requests run on a rig whose timeouts are 5 min, so that slowness of a starved machine is not mistaken for a gateway failure. Distinct = hash of (method, path, via, header count, sizes, framing, status).",
 		Assumptions: []string{
 			"reason phrases, header-name case and Date/Content-Length/Transfer-Encoding framing are not part of the comparison (hop-by-hop or case-insensitive by the HTTP spec)",
 			"every scripted response carries a Content-Type, so net/http's content sniffing (which would add one) is not exercised",
